@@ -23,6 +23,7 @@ type verifS16 struct {
 	mode  int // prepare/stat: 0 ok, 1 panic; check: 0 pass result, 1 nil, 2 block, 3 panic
 	// how a check slot blocks: 0 fresh result, 1 in place with message, 2 in place with rule and snapshot, 3 in place with the type only
 	inplace int
+	cpanic  bool // statistic slot: panics in OnCompleted
 	log     *verifLog
 	blkOK   bool
 }
@@ -87,7 +88,12 @@ func (s *verifStat16) OnEntryBlocked(ctx *base.EntryContext, b *base.BlockError)
 		panic("stat slot panics")
 	}
 }
-func (s *verifStat16) OnCompleted(ctx *base.EntryContext) { s.log.add(5, s.id) }
+func (s *verifStat16) OnCompleted(ctx *base.EntryContext) {
+	s.log.add(5, s.id)
+	if s.cpanic {
+		panic("stat slot panics on completion")
+	}
+}
 
 // verifStableOrder: ids 0..n-1 ordered by ascending order value, insertion order on ties
 // (written as a selection of minima, unlike the implementation's sort).
@@ -143,6 +149,9 @@ func VerifC16() {
 		s := &verifStat16{verifS16{id: i, order: rt.U32n("sord", 2), log: log}}
 		if panics && rt.Bool("spanic") {
 			s.mode = 1
+		}
+		if panics && rt.Param("CPANIC") != 0 && rt.Bool("cpanic") {
+			s.cpanic = true
 		}
 		ss, so = append(ss, s), append(so, s.order)
 		sc.AddStatSlot(s)
@@ -229,6 +238,9 @@ func VerifC16() {
 		if hmode != 2 && !prepPanic {
 			for _, i := range verifStableOrder(so) {
 				wantExit = append(wantExit, 500+i)
+				if ss[i].cpanic {
+					break // contained by Exit; the remaining statistic slots are not told
+				}
 			}
 		}
 		if !statPanic && hmode != 2 {
@@ -252,7 +264,7 @@ func VerifC16() {
 		s.mode = 0
 	}
 	for _, s := range ss {
-		s.mode = 0
+		s.mode, s.cpanic = 0, false
 	}
 	block2 := len(cs) > 0 && rt.Bool("block2")
 	if block2 {
